@@ -178,9 +178,9 @@ fn show_res_opt(o: Option<Option<String>>) -> String { match o { None => "panic"
 fn eid_acc(e: &EndpointID) -> String {
     let node = no_panic(|| e.node());
     let nodeid = no_panic(|| e.node_id());
-    format!("node={} nodeid={} svc={} isnode={} valid={} str={}",
+    format!("node={} nodeid={} svc={} isnode={} valid={} str={} nonsingle={} scheme={}",
         show_res_opt(node), show_res_opt(nodeid), show_opt(e.service_name().map(|s| s.into_bytes())),
-        e.is_node_id(), e.validate().is_ok(), hex(e.to_string().as_bytes()))
+        e.is_node_id(), e.validate().is_ok(), hex(e.to_string().as_bytes()), e.is_non_singleton(), e.scheme())
 }
 
 fn state_line(b: &Bundle) -> String {
@@ -294,6 +294,37 @@ pub fn exec(line: &str, _model: &mut Model) -> Option<Exec> {
                     e.tags.push(format!("ret:{}", ret));
                 }
             }
+            Some(e)
+        }
+        "build" => {
+            // the public builders: PrimaryBlockBuilder, CanonicalBlockBuilder, BundleBuilder (+ `.payload(x)`)
+            let pay = if *t.get(1)? == "n" { None } else { Some(unhex(t[1])?) };
+            let helpers = *t.get(2)? == "h";
+            let (b, n) = parse_bundle(&t[3..])?;
+            if n + 3 != t.len() { return None; }
+            let q = &b.primary;
+            let r = no_panic(|| {
+                let p = bp7::primary::PrimaryBlockBuilder::new().bundle_control_flags(q.bundle_control_flags).crc(q.crc.clone()).destination(q.destination.clone())
+                    .source(q.source.clone()).report_to(q.report_to.clone()).creation_timestamp(q.creation_timestamp.clone()).lifetime(q.lifetime)
+                    .fragmentation_offset(q.fragmentation_offset).total_data_length(q.total_data_length).build();
+                let p = match p { Ok(p) => p, Err(_) => return "err primary".to_string() };
+                let cs: Vec<CanonicalBlock> = b.canonicals.iter().map(|c| {
+                    let bcf = BlockControlFlags::from_bits_retain(c.block_control_flags);
+                    match (helpers, c.data()) {
+                        (true, CanonicalData::Data(d)) => new_payload_block(bcf, d.clone()),
+                        (true, CanonicalData::BundleAge(a)) => bp7::canonical::new_bundle_age_block(c.block_number, bcf, *a),
+                        (true, CanonicalData::HopCount(l, _)) => bp7::canonical::new_hop_count_block(c.block_number, bcf, *l),
+                        (true, CanonicalData::PreviousNode(e)) => bp7::canonical::new_previous_node_block(c.block_number, bcf, e.clone()),
+                        _ => bp7::canonical::CanonicalBlockBuilder::new().block_type(c.block_type).block_number(c.block_number)
+                            .block_control_flags(c.block_control_flags).crc(c.crc.clone()).data(c.data().clone()).build().unwrap(),
+                    }
+                }).collect();
+                let mut bb = bp7::bundle::BundleBuilder::new().primary(p).canonicals(cs);
+                if let Some(d) = &pay { bb = bb.payload(d.clone()); }
+                match bb.build() { Ok(x) => format!("ok {}", show_bundle(&x)), Err(_) => "err payload".to_string() }
+            });
+            let mut e = Exec::new(r.clone().unwrap_or("panic".into()));
+            if r.is_none() { e.oracle_fail = Some("a public builder panics".into()); }
             Some(e)
         }
         "seq" => {
@@ -441,6 +472,13 @@ pub fn exec(line: &str, _model: &mut Model) -> Option<Exec> {
             let mut e = Exec::new(match r { Some(v) => format!("ok {}", v), None => "panic".into() });
             if r != Some(c - MS2K) { e.oracle_fail = Some(format!("dtn_time_now() = {:?} with the clock at {} ms", r, c)); }
             Some(e)
+        }
+        "spec.adm" => {
+            // layout: the bytes serde writes vs the RFC 9171 6.1 reference encoder (records in normal form)
+            let r = parse_admin(&t[1..])?;
+            if !admin_normal(&r) { return None; }
+            let v = no_panic(|| serde_cbor::to_vec(&r).ok())??;
+            Some(Exec::new(format!("ok {}", hex(&v))))
         }
         "adm.enc" => {
             let r = parse_admin(&t[1..])?;
@@ -607,7 +645,14 @@ fn gen_c07(rng: &mut Rng, ctx: &mut Ctx, rep: &mut Report, emit: Emit) {
     for i in 0..ctx.n(10_000, 1_000_000) {
         let mut b = if i % 3 == 0 { gen_bundle(rng, &Opts { wf: true, max_blocks: 6 }) } else { gen_valid_bundle(rng) };
         if i % 3 == 1 {
-            match rng.below(14) {
+            match rng.below(19) {
+                // typed data in a block of another type; opaque payload data outside the payload block; payload
+                // block carrying typed data; previous node naming an invalid EID
+                14 => { let (t, d) = match rng.below(4) { 0 => (7u64, CanonicalData::HopCount(3, 1)), 1 => (10, CanonicalData::BundleAge(5)), 2 => (6, CanonicalData::BundleAge(5)), _ => (*rng.pick(&[7u64, 10, 192]), CanonicalData::PreviousNode(gen_eid_wf(rng))) }; b.canonicals.insert(0, new_canonical_block(t, 60, 0, d)); }
+                15 => { b.canonicals.insert(0, new_canonical_block(*rng.pick(&[6u64, 7, 10, 192, 2]), 61, 0, CanonicalData::Data(vec![1, 2]))); }
+                16 => { b.canonicals.retain(|c| c.block_type != 1); b.canonicals.push(new_canonical_block(1, 1, 0, rng.pick(&[CanonicalData::BundleAge(1), CanonicalData::HopCount(1, 1)]).clone())); }
+                17 => { b.canonicals.insert(0, new_canonical_block(6, 62, 0, CanonicalData::PreviousNode(EndpointID::Dtn(1, dtn_address(*rng.pick(&[&b"abc"[..], b"/x", b"//x"])).unwrap())))); }
+                18 => { b.canonicals.insert(0, new_canonical_block(200, 63, 0, CanonicalData::DecodingError)); }
                 0 => { b.primary.bundle_control_flags |= 0x5; }
                 1 => { b.primary.bundle_control_flags |= 0x2 | *rng.pick(&[0x4000u64, 0x10000, 0x20000, 0x40000]); }
                 2 => { b.primary.source = EndpointID::Ipn(2, bp7::eid::IpnAddress::new(0, 1)); }
@@ -695,7 +740,7 @@ fn gen_c10(rng: &mut Rng, ctx: &mut Ctx, rep: &mut Report, emit: Emit) {
                     7 => format!("ipn:{}", 1 + rng.below(100)),
                     _ => format!("ipn:{}.{}.{}", 1 + rng.below(9), rng.below(9), rng.below(9)),
                 };
-                let s = if s.starts_with("dtn:/") && !s.starts_with("dtn://") || !s.starts_with("dtn:/") { s } else { "dtn:x".to_string() };
+                let s = if s == "dtn://none" || s.starts_with("dtn:/") && !s.starts_with("dtn://") || !s.starts_with("dtn:/") { s } else { "dtn:x".to_string() };
                 emit(ctx, rep, format!("eid.bad {}", hex(s.as_bytes())));
             }
             2 => {
@@ -753,6 +798,16 @@ fn gen_c11(rng: &mut Rng, ctx: &mut Ctx, rep: &mut Report, emit: Emit) {
         if ops.is_empty() { emit(ctx, rep, format!("seq {}", show_bundle(&b))); } else { emit(ctx, rep, format!("seq {} {}", show_bundle(&b), ops.join(" ; "))); }
     }
     rep.exhaustive_parts.push(format!("all {} sequences of operation kinds of length <= {}", seqs.len(), maxlen));
+    // the public builders as starting point: unsorted, duplicate, payload-less block lists
+    for _ in 0..ctx.n(600, 60_000) {
+        let mut b = gen_bundle(rng, &Opts { wf: true, max_blocks: 5 });
+        if rng.chance(1, 2) { for (i, c) in b.canonicals.iter_mut().enumerate() { if c.block_type != 1 { c.block_number = match rng.below(4) { 0 => rng.u64b(), 1 => 0, _ => 2 + i as u64 + rng.below(3) }; } } }
+        if rng.chance(1, 6) { b.canonicals.retain(|c| c.block_type != 1); }
+        if rng.chance(1, 10) { b.primary.destination = EndpointID::none(); }
+        for i in (1..b.canonicals.len()).rev() { let j = rng.below(i as u64 + 1) as usize; b.canonicals.swap(i, j); }
+        let pay = if rng.chance(1, 3) { hex(&gen_payload(rng)) } else { "n".to_string() };
+        emit(ctx, rep, format!("build {} {} {}", pay, if rng.chance(1, 3) { "h" } else { "b" }, show_bundle(&b)));
+    }
     for _ in 0..ctx.n(3_000, 300_000) {
         let mut b = start(rng);
         if rng.chance(1, 10) { b.canonicals.insert(0, new_canonical_block(200, u64::MAX, 0, CanonicalData::Unknown(vec![]))); }
@@ -778,6 +833,7 @@ fn gen_c12(rng: &mut Rng, ctx: &mut Ctx, rep: &mut Report, emit: Emit) {
                     source_node: gen_eid_wf(rng), timestamp: CreationTimestamp::with_time_and_seq(rng.u64b(), rng.u64b()), frag_offset: if fl != 0 && rng.chance(1, 3) { 0 } else if fl != 0 || rng.chance(1, 30) { rng.u64b() } else { 0 }, frag_len: fl })
             };
             emit(ctx, rep, format!("adm.enc {}", show_admin(&rec)));
+            if admin_normal(&rec) { emit(ctx, rep, format!("spec.adm {}", show_admin(&rec))); }
         } else {
             let mut b = gen_valid_bundle(rng);
             b.primary.bundle_control_flags &= !1;
@@ -807,7 +863,7 @@ fn gen_c13(rng: &mut Rng, ctx: &mut Ctx, rep: &mut Report, emit: Emit) {
     for i in 0..ctx.n(10_000, 1_000_000) {
         let digits = |rng: &mut Rng| -> u64 { match rng.below(4) { 0 => rng.below(10), 1 => rng.below(1000), 2 => 10 * rng.below(100) + 1, _ => rng.u64b() } };
         let (a, b, c) = (digits(rng), digits(rng), digits(rng));
-        let svc = *rng.pick(&["a", "a-1", "x-2-3", "svc", "7", "a-"]);
+        let svc = *rng.pick(&["a", "a-1", "x-2-3", "svc", "7", "a-", "", "svc/", "~g/"]);
         let b1 = match i % 4 {
             0 => mk(&format!("dtn://n/{}-{}", svc, a), b, c, false, 0),
             1 => mk(&format!("dtn://n/{}", svc), a, b, true, c),
@@ -829,7 +885,7 @@ fn gen_c13(rng: &mut Rng, ctx: &mut Ctx, rep: &mut Report, emit: Emit) {
         };
         emit(ctx, rep, format!("idpair {} | {}", show_bundle(&b1), show_bundle(&b2)));
         if i % 8 == 0 { emit(ctx, rep, format!("id {}", show_bundle(&b1))); }
-        if i % 6 == 0 {
+        if i % 3 == 1 {
             // C13: the reference string of status reports about b1 (whole bundles, first and later fragments)
             let fl = if b1.primary.bundle_control_flags & 1 != 0 { 1 + rng.u64b() / 2 } else { 0 };
             let rec = AdministrativeRecord::BundleStatusReport(StatusReport { status_information: (0..4).map(|k| BundleStatusItem { asserted: k == 1, time: 0, status_requested: false }).collect(), report_reason: 0,
